@@ -238,6 +238,18 @@ theorem shared_shared_rejected :
 theorem atomic_pair_ok : raceFree [{ exU with atomic := true }] = true := by decide
 theorem atomic_plain_rejected : raceFree [{ exU with atomic := true }, { exU with write := false }] = false := by decide
 
+/-- `sync.WaitGroup` reuse contract ("an `Add` that starts from zero must happen before `Wait`"; finding C10-D30).  The
+    WaitGroup's own methods are internally synchronised (rows of `T.f`, atomic), but the *contract* is a discipline of
+    the caller: the extractor emits `Add`/`Go` as a plain write and `Wait` as a plain read of the virtual field
+    `T.f/reuse`, so `Add ∥ Wait` is a conflicting pair like any other.  Shape of `Reader.join` before /repo 6e8933d:
+    `start` adds under the mutex (7) inside the closed-flag barrier (token 22), `Close` waits behind the barrier, and
+    the generation goroutine's `unsubscribe` waits holding nothing — rejected; without that row, accepted. -/
+def wgAdd : Access := { field := 1, write := true, atomic := false, locks := [⟨7, .excl⟩, ⟨22, .excl⟩], phase := .published, site := 10 }
+def wgWaitClose : Access := { field := 1, write := false, atomic := false, locks := [⟨22, .excl⟩], phase := .published, site := 11 }
+def wgWaitGen : Access := { field := 1, write := false, atomic := false, locks := [], phase := .published, site := 12 }
+theorem waitgroup_reuse_rejected : raceFree [wgAdd, wgWaitClose, wgWaitGen] = false := by decide
+theorem waitgroup_barrier_ok : raceFree [wgAdd, wgWaitClose] = true := by decide
+
 /-- A row the extractor emits for "write to the pointee after publication" / "use after Pool.Put" / "object
     retained in a field after Put" is a published, non-atomic write with no lock: such a row conflicts with
     itself (the same statement run by two goroutines, or by the new owner of the object), so **every** table
